@@ -232,7 +232,9 @@ def _parse_unauthorized(content: bytes) -> AuthenticationError:
 
     """
     payload: object = None
-    with contextlib.suppress(ValueError):
+    # RecursionError: a deeply nested body ("[[[[...") overflows the decoder's
+    # stack; it is no more a JSON envelope than any other malformed body.
+    with contextlib.suppress(ValueError, RecursionError):
         payload = json.loads(content)
     if isinstance(payload, dict):
         raw_reason = str(payload.get("reason", ""))
